@@ -109,7 +109,8 @@ variant: evidence per_action_counts "parse:*", "dump:*", "(api) *".
   a call the API MAY refuse (separator look-alike inside the value): spec: MayReject / acc; replay: twin CASE lines (files, license
     files, upstream_name, upstream_contact / files_excluded,          synopsis, custom field) in DocReject / BadEdits; trace: ~22 %
     license synopsis, copyright, comment / source / disclaimer,       of the random calls of both phases (MAY_RATE), one long
-    custom fields -- setters and p[k] = v                             pattern list per size-suite document
+    custom fields -- setters and p[k] = v; create(...) +              pattern list per size-suite document; add_* of a paragraph
+    add_*_paragraph of a paragraph with such a pattern / synopsis     with such a value: ~22 % of the add edits (trace)
   a call whose caller-supplied object FAILS (iterable of patterns /  spec: kind "fault"; replay: DocReject / BadEdits cases (Files,
     entries, file object given to dump(f) / paragraph.dump(fd),       Upstream-Contact, dump, parse; fault position / exception
     file object / iterator given to Copyright())                     class / kind of object rotated); trace: ~15 % of the calls
@@ -1164,7 +1165,8 @@ def do_call(C, c, p, e, vr=None):
             if do_fault(C, c, p, e, vr, holder) is None:         # (an input that ended early: not judged)
                 e["raised"], e["exc"] = True, "CallerError"
         elif k == "add":
-            q = _mk_para(C, e["para"])
+            # (creating the paragraph is part of the step: create / the setters / the constructor may refuse a value)
+            q = _mk_para(C, e["para"], vr if has_look("".join(e["para"]["pats"]) + e["para"]["syn"]) else None)
             if e["para"]["kind"] == "Files":
                 c.add_files_paragraph(q)
             else:
@@ -2532,6 +2534,12 @@ def random_edit_requests(rng):
                     "syn": rng.choice(SYN_POOL), "text": random_text(rng, 4)}
         else:
             para = {"kind": "License", "pats": [], "copy": None, "syn": rng.choice(SYN_POOL), "text": random_text(rng, 4)}
+        if rng.random() < MAY_RATE:
+            # a paragraph whose creation the format does not settle: a look-alike inside a pattern / the synopsis
+            if para["kind"] == "Files" and rng.random() < 0.7:
+                para["pats"].insert(rng.randrange(len(para["pats"]) + 1), may_inject(rng, rng.choice(PAT_POOL)))
+            else:
+                para["syn"] = may_inject(rng, para["syn"])
         reqs.append({"kind": "add", "para": para})
     return reqs
 
@@ -2609,7 +2617,8 @@ def may_edit(a):
     """(statistics only) an abstract call record carries a value with a separator look-alike where MayReject looks"""
     k = a["kind"]
     ids = (a["pats"] if k == "files" else [w for ent in a["pats"] for w in ent] if k == "entries"
-           else [w for ln in a["copy"] for w in ln["id"]] if k in ("copy", "raw", "name", "item") else a["lic"]["syn"]["id"] if k == "lic" else [])
+           else [w for ln in a["copy"] for w in ln["id"]] if k in ("copy", "raw", "name", "item") else a["lic"]["syn"]["id"] if k == "lic"
+           else a["para"]["pats"] + a["para"]["lic"]["syn"]["id"] if k == "add" else [])
     return any(w >= MAY for w in ids)
 
 
